@@ -330,6 +330,20 @@ func (vc *VC) applyContract(fc *FuncContract, fn *ssa.Function, c *ssa.CallCommo
 		for i, fv := range fn.FreeVars {
 			if mc, ok := c.Value.(*ssa.MakeClosure); ok && i < len(mc.Bindings) {
 				env.vars[fv.Name()] = vc.val(mc.Bindings[i])
+				// a captured variable assigned once before the closure was made: its content is that
+				// value whatever was called in between
+				if al, ok := mc.Bindings[i].(*ssa.Alloc); ok && singleStoreBefore(al, mc) {
+					if sv, ok := vc.constCellAt(al, mc); ok {
+						if _, done := vc.vals[sv]; done || isConstLike(sv) {
+							if env.derefConst == nil {
+								env.derefConst = map[string]TV{}
+							}
+							tv := vc.val(sv)
+							tv.T = al.Type().Underlying().(*types.Pointer).Elem()
+							env.derefConst[fv.Name()] = tv
+						}
+					}
+				}
 			}
 		}
 	}
@@ -349,7 +363,7 @@ func (vc *VC) applyContract(fc *FuncContract, fn *ssa.Function, c *ssa.CallCommo
 	// frame
 	vc.applyModifies(fc, env, st)
 	// results
-	post := &Env{vars: env.vars, st: st, old: pre, loopVals: env.loopVals, pkg: env.pkg, argVals: env.argVals}
+	post := &Env{vars: env.vars, st: st, old: pre, loopVals: env.loopVals, pkg: env.pkg, argVals: env.argVals, derefConst: env.derefConst}
 	var res *TV
 	if v != nil {
 		tv := vc.havocVal(v, st)
@@ -388,8 +402,27 @@ func (vc *VC) applyContract(fc *FuncContract, fn *ssa.Function, c *ssa.CallCommo
 		vc.addFact(kind, imp(vc.guard(), vc.trBool(e.E, post)))
 	}
 	// ghost instrumentation: definitional updates of ghost variables performed by the call
-	for _, e := range fc.GhostDefs {
-		vc.addFact("assume", imp(vc.guard(), vc.trBool(e.E, post)))
+	// (executed when the callee starts: everything but the ghosts being defined is read in the state
+	// before the call, exactly as in the callee's own verification condition)
+	if len(fc.GhostDefs) > 0 {
+		gst := pre.clone()
+		for _, m := range fc.Modifies {
+			if _, ok := vc.prog.cs.Ghosts[m]; !ok {
+				continue
+			}
+			for _, e := range fc.GhostDefs {
+				if containsWord(e.Src, m) {
+					k := "#ghost." + m
+					if h, ok := st.heap[k]; ok {
+						gst.heap[k] = h
+					}
+				}
+			}
+		}
+		genv := &Env{vars: post.vars, st: gst, old: pre, loopVals: env.loopVals, pkg: env.pkg, argVals: env.argVals, derefConst: env.derefConst}
+		for _, e := range fc.GhostDefs {
+			vc.addFact("assume", imp(vc.guard(), vc.trBool(e.E, genv)))
+		}
 	}
 	vc.tokCall(fc, fn, c, args, names, res, env, post, st, pos)
 	return res
@@ -1064,6 +1097,9 @@ func (vc *VC) resolveHeapKey(e Expr) string {
 	}
 	if name == "[]uint8" {
 		vc.heapKeySort(name, types.Typ[types.Byte])
+	}
+	if name == "#closed" {
+		vc.heapKeySort(name, types.Typ[types.Bool])
 	}
 	return name
 }
